@@ -55,6 +55,8 @@ def build(spec, ctx, vals=None):
         m.add_surrogate(name, s)
     for name, fn, args in spec.get("readouts", []):
         m.add_readout(name, fn, args=list(args))
+    for name, series in spec.get("data", []):
+        m.add_data(name, series)
     return m
 
 
@@ -241,6 +243,17 @@ def base_shapes():
             ("qs", "qss", R.two_outputs_c, ["dq", "y", "k1"], ["q1", "q2"],
              {"q1": {"x": -1, "y": ("d", R.constant, ["x"])}}),
         ],
+    ))
+    import pandas as _pd
+
+    S.append(dict(
+        name="data_readout",
+        params=[("k1", None)],
+        vars=[("x", None), ("y", None)],
+        derived=[("dd", R.first_of, ["light"]), ("dk", R.mul, ["dd", "k1"])],
+        reactions=[("v1", R.mass_action_1s, ["x", "dk"], {"x": -1, "y": 1})],
+        readouts=[("ro1", R.mul, ["x", "v1"]), ("ro2", R.add, ["dd", "y"])],
+        data=[("light", _pd.Series({"a": 1.5, "b": 2.0}))],
     ))
     S.append(dict(
         name="mm_moiety",
